@@ -19,7 +19,13 @@ import jax
 import jax.numpy as jnp
 import jax._src.core as _core
 
-from dverif.poly import PolyArr, atom_apply
+from dverif.poly import PolyArr, atom_apply as _atom_apply_raw, atom_apply_normalised
+
+
+def atom_apply(kind, arg, extra=None):
+  if getattr(arg.sp, 'normalise_atoms', False):
+    return atom_apply_normalised(kind, arg, extra)
+  return _atom_apply_raw(kind, arg, extra)
 from dverif import term as _term
 from dverif.term import TermArr
 
